@@ -44,6 +44,8 @@ InitC == Init /\ cuts = <<>> /\ alone = <<TRUE, IInit>> /\ parts = <<>>
 AbsMoveSame == (alone[1] /\ alone[2][5] # <<>> /\ hist[(IF cuts = <<>> THEN 0 ELSE cuts[Len(cuts)]) + 1][1] = "M")
                  => SubSeq(segs, Len(segs) - Len(alone[2][5]) + 1, Len(segs)) = alone[2][5]
 Next == Split \/ Step
+\* simulation mode: long behaviours with their cuts
+Emit == (Len(hist) = MaxCmds /\ cuts # <<>> /\ ~JustCut) => PrintT(<<"CASE", hist, segs, cuts, Append(parts, <<alone[1], alone[2][5]>>)>>)
 \* the split is invisible to the interpreter
 SplitInvisible == [][Split => UNCHANGED <<cur, zp, ctl, deg>>]_allvars
 =============================================================================
